@@ -909,4 +909,14 @@ SEEDS = [
     dict(id='LY5-layout-exponent-short', props=['C14', 'C10'], file='src/seg/layout.rs',
          old="""        let p = (len - 1).ilog2() + 1;""",
          new="""        let p = (len - 2).ilog2() + 1;""", note='hi can map to bucket 32'),
+
+    # --- REDRED: the insert repair follows the red node it pushes up ------------------------------------------------
+    dict(id='RR1-set-insert-repair-no-climb', props=['C02'], file='src/set/tree.rs',
+         old="""            if gg_index != EMPTY_REF && self.node(gg_index).color == Color::Red {
+                self.fix_red_black_properties_after_insert(g_index, gg_index);
+            }""",
+         new="""            let _ = gg_index;""", note='the red grandparent is left under a red great-grandparent'),
+    dict(id='RR2-key-insert-repair-climb-on-black', props=['C02'], file='src/key/tree.rs',
+         old="""            if gg_index != EMPTY_REF && self.node(gg_index).color == Color::Red {""",
+         new="""            if gg_index != EMPTY_REF && self.node(gg_index).color == Color::Black {""", note='continues only when nothing is wrong, stops when two reds meet'),
 ]
